@@ -198,7 +198,19 @@ class ShardCtx:
             with open(self.current_path, "w") as fh:
                 fh.write(canon({"check": check_name, "case": case}))
         try:
-            info = check(case, self)
+            try:
+                info = check(case, self)
+            except (PropertyViolation, HarnessError, KeyboardInterrupt):
+                raise
+            except Exception as e:  # noqa: BLE001
+                # An exception that left the library under test through a call the check expected to succeed (the check
+                # handles every documented refusal itself) is the library raising where success is documented: a violation,
+                # named after the innermost library frame. Anything raised by harness code stays a harness error.
+                where = _raised_inside_sut(e)
+                if where is None:
+                    raise
+                raise PropertyViolation(f"unexpected-exception:{type(e).__name__}:{where}",
+                                        f"{type(e).__name__}: {str(e)[:200]} raised inside cobra ({where}) by a call that is documented to succeed") from e
         except PropertyViolation as v:
             entry = {"bucket": v.bucket, "message": v.message, "check": check_name, "case": case,
                      "detail": v.detail, "size": len(canon(case))}
@@ -313,6 +325,19 @@ class ShardCtx:
             "wall_s": round(time.time() - self.t0, 3),
             "exhaustive": self.exhaustive,
         }
+
+
+def _raised_inside_sut(exc) -> Optional[str]:
+    """'module.function' of the innermost cobra frame if the traceback ends inside the library under test (or in a
+    dependency it called) below the last harness frame, else None."""
+    frames = traceback.extract_tb(exc.__traceback__)
+    harness = os.path.join(ROOT, "vfw")
+    last_harness = max((i for i, f in enumerate(frames) if f.filename.startswith(harness)), default=-1)
+    sut = [f for f in frames[last_harness + 1:] if os.path.abspath(f.filename).startswith(os.path.abspath(REPO_SRC))]
+    if not sut:
+        return None
+    f = sut[-1]
+    return f"{os.path.splitext(os.path.basename(f.filename))[0]}.{f.name}"
 
 
 def load_module(prop: str):
